@@ -11,3 +11,6 @@ import LopdfModel.Lemmas.Utf16
 import LopdfModel.Lemmas.Text
 import LopdfModel.Spec.Charts
 import LopdfModel.Thm.C16
+import LopdfModel.Model.Dates
+import LopdfModel.Spec.PdfDate
+import LopdfModel.Thm.C18
